@@ -8,6 +8,15 @@ def gen_C05():
     f = Family("C05")
     f.const("max_varint_value", "quic/s2n-quic-core/src/varint/mod.rs",
             r"pub\s+const\s+MAX_VARINT_VALUE\s*:\s*u64\s*=\s*([^;]+);")
+    # first-byte masks of packet headers (RFC 9000 17.2 / 17.3.1), each from the file that uses it
+    f.const("reserved_mask_short", "quic/s2n-quic-core/src/packet/short.rs",
+            r"const\s+RESERVED_BITS_MASK\s*:\s*u8\s*=\s*([^;]+);")
+    f.const("spin_mask_short", "quic/s2n-quic-core/src/packet/short.rs",
+            r"const\s+SPIN_BIT_MASK\s*:\s*u8\s*=\s*([^;]+);")
+    f.const("reserved_mask_long", "quic/s2n-quic-core/src/packet/long.rs",
+            r"const\s+RESERVED_BITS_MASK\s*:\s*u8\s*=\s*([^;]+);")
+    f.const("key_phase_mask", "quic/s2n-quic-core/src/packet/key_phase.rs",
+            r"const\s+KEY_PHASE_MASK\s*:\s*u8\s*=\s*([^;]+);")
     rel = "quic/s2n-quic-core/src/varint/table.rs"
     src = read(rel)
     rows = None
